@@ -110,6 +110,8 @@ type runState struct {
 	conns     []*connRec
 	tncs      []*ardop.TNC
 	extra     []*core.GoResult // outstanding calls the script gave up waiting for
+	sideG     *core.GoResult   // the application's second goroutine
+	sideStop  atomic.Bool
 	setPTTAt  time.Duration
 	tncClose  time.Duration
 	teardown  bool
@@ -183,6 +185,23 @@ func usDur(us int) time.Duration {
 	return time.Duration(us) * time.Microsecond
 }
 
+// side is the application's second goroutine (Plan.Side).
+func (rs *runState) side(tnc *ardop.TNC) {
+	rs.sim.Probe("second-application-goroutine-issues-commands")
+	for i, st := range rs.plan.Side {
+		if i >= 64 {
+			return
+		}
+		rs.sleep(usDur(st.DelayUs))
+		if rs.tearingDown() || rs.sideStop.Load() {
+			return
+		}
+		if st.Op == "version" {
+			rs.call("version", 1000+i, 0, func(c *callRec) error { _, err := tnc.Version(); return err })
+		}
+	}
+}
+
 // client is the scripted application.
 func (rs *runState) client(open func() (*ardop.TNC, error)) {
 	var tnc *ardop.TNC
@@ -211,6 +230,14 @@ func (rs *runState) client(open func() (*ardop.TNC, error)) {
 				}
 				return err
 			})
+			if tnc != nil && len(rs.plan.Side) > 0 {
+				t := tnc
+				g := core.Go(func() { rs.side(t) })
+				rs.mu.Lock()
+				rs.extra = append(rs.extra, g)
+				rs.sideG = g
+				rs.mu.Unlock()
+			}
 		case "setptt":
 			if tnc == nil {
 				continue
@@ -337,6 +364,11 @@ func (rs *runState) client(open func() (*ardop.TNC, error)) {
 		case "tncclose":
 			if tnc == nil {
 				continue
+			}
+			// an application joins its helpers before it closes the TNC under them
+			if rs.sideG != nil {
+				rs.sideStop.Store(true)
+				core.WaitAll(time.Hour, rs.sideG)
 			}
 			rs.mu.Lock()
 			if rs.tncClose < 0 {
